@@ -8,6 +8,7 @@ from ..enforce_model import enforce_table, path_features
 from ..model import AnalysisError
 from ..paths import exc_subclass
 from ..util import (U, is_const, kwarg, parent_map, walk_no_nested,
+                    method_call,
                     self_attr)
 
 POLICY = PKG + '.policy'
@@ -34,6 +35,16 @@ def dr_domain():
     }
 
 
+def _get_with_sentinel(e, subj):
+    """text of S for `self.get(<default rule>, S)` with S a plain name (a
+    module-level sentinel object), else None"""
+    if isinstance(e, ast.Call) and method_call(e, 'get') and U(
+            method_call(e)[0]) == 'self' and len(e.args) == 2 and U(
+                e.args[0]) == subj and isinstance(e.args[1], ast.Name):
+        return e.args[1].id
+    return None
+
+
 def check_missing(ctx):
     prog = ctx.prog
     f = prog.func(RULES + '.__missing__')
@@ -58,6 +69,10 @@ def check_missing(ctx):
         if isinstance(e, ast.Subscript) and U(e.value) == 'self' and \
                 U(e.slice) == subj:
             return 'lookup'
+        if _get_with_sentinel(e, subj) is not None:
+            # self.get(default, <sentinel>) on a path that excluded the
+            # sentinel: the rule stored under the default name
+            return 'lookup'
         return 'other:' + U(e)
 
     for k, (av, in_store, want) in dom.items():
@@ -68,6 +83,16 @@ def check_missing(ctx):
                     U(expr.left) == subj and U(expr.comparators[0]) in (
                         'self', 'self.keys()'):
                 return in_store
+            # self.get(default, SENTINEL) is SENTINEL  <=>  not in the store
+            x = t.expand(expr)
+            if isinstance(x, ast.Compare) and len(x.ops) == 1 and \
+                    isinstance(x.ops[0], (ast.Is, ast.IsNot)):
+                for a, b in ((x.left, x.comparators[0]),
+                             (x.comparators[0], x.left)):
+                    sent = _get_with_sentinel(a, subj)
+                    if sent is not None and U(b) == sent:
+                        return (not in_store) == isinstance(x.ops[0],
+                                                            ast.Is)
             return None
         feas = t.feasible({subj: av}, oracle)
         outs = {}
